@@ -5,7 +5,7 @@
    variables below r matter), And / Or nodes, witnesses, downward closure of coverage, the root. *)
 From Coq Require Import List ZArith Bool Arith Lia Permutation.
 From DD Require Import Model.Circuit Model.Query Proofs.PassLemmas Proofs.Enum Proofs.Semantics
-  Proofs.CountsA Proofs.QueryDefs Proofs.C03Proof Proofs.TwiseBase.
+  Proofs.CountsA Proofs.QueryDefs Proofs.Live Proofs.C03Proof Proofs.TwiseBase.
 Import ListNotations.
 Open Scope Z_scope.
 
@@ -282,6 +282,30 @@ Proof.
     assert (- l = l) by (apply (NoDup_map_inj_in Z.abs e (- l) l Hnd Hnl Hl); now rewrite Z.abs_opp).
     assert (l = 0) by lia. subst. exact (enum_nonzero r e Hr He Hl).
 Qed.
+
+(* ... and, at a REACHABLE node (Proofs/Live.v), of LIVE leaves: the witness configuration of r
+   extends to a configuration of the root.  This is what keeps the core shortcut of sat_propagate
+   (the core is relative to the root, and since F22 it ignores dead branches) out of the way. *)
+Lemma enum_live r e : Reach C r -> In e (nth r (enums C) []) -> forall l, In l e -> LiveLit C l.
+Proof.
+  intros HR He l Hl. destruct (live_up C Hok r HR e He) as [c [Hc Hinc]].
+  apply (live_lit_enum C Hok l (wf_nonempty C n HWF)). exists c. split; [exact Hc|now apply Hinc].
+Qed.
+
+Lemma valid_live_lits r A : (r < length C)%nat -> Reach C r ->
+  (forall l, In l A -> In (Z.abs l) (V r)) -> valid r A -> forall l, In l A -> LiveLit C l.
+Proof.
+  intros Hr HR HA Hv l Hl. destruct (valid_incl_witness r A Hr HA Hv) as [e [He Hinc]].
+  exact (enum_live r e HR He l (Hinc l Hl)).
+Qed.
+
+Lemma live_lit_of l : LiveLit C l -> In l (lits_of C).
+Proof. intros H. apply in_lits_of_iff. now apply live_lit_leaf. Qed.
+
+(* the children of a reachable node with a positive count are reachable *)
+Lemma reach_kid p j : (p < length C)%nat -> Reach C p -> 0 < cnt C p ->
+  In j (children (nth p C FalseN)) -> Reach C j.
+Proof. intros Hp HR Hpos Hj. apply (reach_child C p j HR Hp); [|exact Hj]. unfold cnt in Hpos. lia. Qed.
 
 (* ---------- downward closure of coverage ---------- *)
 Lemma cover_down r (Vs : list Z) (tt : nat) (Cov : cfg -> Prop) :
